@@ -202,6 +202,10 @@ class SetMembersMixin:
             if name in self.members:  # type: ignore[attr-defined]
                 member = self.members[name]  # type: ignore[attr-defined]
                 if not member.is_alias:
+                    # The checks below read the value's path and can resolve it (when it is an alias):
+                    # both need the value to be attached already.
+                    if not self.is_collection:  # type: ignore[attr-defined]
+                        value.parent = self  # type: ignore[assignment]
                     # When reassigning a module to an existing one,
                     # try to merge them as one regular and one stubs module
                     # (implicit support for .pyi modules).
